@@ -72,6 +72,8 @@ def gen_consts():
     sh([sys.executable, os.path.join(VERIF, "tools", "gen_strun.py"), os.path.join(COQ, "gen", "StRunProg.v")])
     # T6: the constants of util/slot.rs (obligations of C19)
     sh([sys.executable, os.path.join(VERIF, "tools", "gen_slot.py"), os.path.join(COQ, "gen", "SlotProg.v")])
+    # T7: the loop body of SeqFuture::poll (obligations of C07 / C08)
+    sh([sys.executable, os.path.join(VERIF, "tools", "gen_seqfut.py"), os.path.join(COQ, "gen", "SeqFutProg.v")])
     return out
 
 
